@@ -41,6 +41,7 @@ MIN_REACH = {
     "merges_adding_longer_labels_to_a_string_axis": {"quick": 2, "thorough": 50},
     "merges_widening_a_narrow_stored_axis": {"quick": 6, "thorough": 100},
     "second_merges_giving_precedence_to_stored_complex_data": {"quick": 10, "thorough": 150},
+    "megabyte_datasets_saved_loaded_and_saved_over": {"quick": 3, "thorough": 10},
     "listings_checked": {"quick": 500, "thorough": 8000},
     "harvester_name_checks": {"quick": 50, "thorough": 800},
     "harvester_deletes_with_backup": {"quick": 12, "thorough": 200},
@@ -78,6 +79,9 @@ def cases(ctx):
                "name": base + (EXT[engine] if named_ext else ""), "has_ext": named_ext,
                "chunks": rng.choice([None, None, 1, 2, "dict"]), "dseed": rng.randint(0, 10 ** 9),
                "mode": rng.choice(["roundtrip", "roundtrip", "merge_twice", "merge_twice", "harvester"])}
+    # megabyte-sized datasets (two 300x300 / 400x400 variables), saved, loaded and saved over
+    for i in range(ctx.pick(4, 12)):
+        yield {"big": [300, 400][i % 2], "engine": ["joblib", "h5netcdf"][(i // 2) % 2], "dseed": i, "mode": "big"}
 
 
 def build(case):
@@ -157,10 +161,57 @@ def judge_equal(orig, loaded, engine):
     return None
 
 
+def _big_history(path, engine, n, seed):
+    """Megabyte-sized dataset: save, load, then save OTHER data under the same name; what was loaded first is still what
+    was saved first, and the load - change one number - save back cycle reads back with that change.  Runs in a forked
+    child (a fault below Python must not take the check down)."""
+    import xyzpy
+    import xarray as xr
+    rng = np.random.default_rng(seed)
+    a, b = rng.normal(size=(n, n)), rng.normal(size=(n, n))
+    first = xr.Dataset({"u": (("x", "y"), a), "w": (("x", "y"), b)}, coords={"x": np.arange(n), "y": np.arange(n) * 0.5})
+    with quiet():
+        xyzpy.save_ds(first, path, engine=engine)
+        loaded = xyzpy.load_ds(path, engine=engine)
+    d = refmodel.ds_equiv(first, loaded, check_attrs=False)
+    if d:
+        return "round trip of a %dx%d dataset: %s" % (n, n, d)
+    second = first + 1.0
+    with quiet():
+        xyzpy.save_ds(second, path, engine=engine)
+    d = refmodel.ds_equiv(first, loaded, check_attrs=False)
+    if d:
+        return "the dataset loaded first changed when other data was saved under the same name afterwards: %s" % d
+    with quiet():
+        again = xyzpy.load_ds(path, engine=engine)
+        again["u"].values[0, 0] = 42.0
+        expect = again.copy(deep=True)
+        xyzpy.save_ds(again, path, engine=engine)
+        back = xyzpy.load_ds(path, engine=engine)
+    d = refmodel.ds_equiv(expect, back, check_attrs=False)
+    if d:
+        return "load, change one number, save back under the same name: %s" % d
+    return None
+
+
 def run_case(ctx, case):
     import xyzpy
     import xarray as xr
     engine = case["engine"]
+    if case.get("big"):
+        from .. import crash
+        root = ctx.mkdtemp("ds")
+        path = os.path.join(root, "big" + EXT[engine])
+        st, val = crash.run_forked(lambda: _big_history(path, engine, case["big"], case["dseed"]))
+        ctx.count("megabyte_datasets_saved_loaded_and_saved_over")
+        sig = {"api": "big", "engine": engine}
+        if st != "ok":
+            ctx.violation(case, "saving / loading a %dx%d dataset and saving over it: child process %s %r" % (case["big"], case["big"], st, val), dict(sig, oracle="big-history"))
+        elif val:
+            ctx.violation(case, val, dict(sig, oracle="big-history"))
+        ctx.observe(case, key=("big", engine, case["big"]))
+        ctx.rmtree(root)
+        return
     root = tmp = ctx.mkdtemp("ds")
     if case["dseed"] % 6 == 5:
         # a directory whose NAME contains the text of an extension: it says nothing about the file
@@ -309,10 +360,10 @@ def run_case(ctx, case):
                 with quiet():
                     back = xyzpy.load_ds(path, engine=engine)
                 ctx.count("roundtrips")
-                # n.b. merging is xarray's: attributes of a merge are not promised, values are
-                d = refmodel.ds_equiv(orig, back, check_attrs=False)
+                # (nothing was stored under that name before: this is a plain save, attributes included)
+                d = judge_equal(orig, back, engine)
                 if d:
-                    bad.append(("roundtrip", "load_ds after save_merge_ds differs: " + d))
+                    bad.append(("roundtrip", "load_ds after save_merge_ds (onto a name that held nothing yet) differs: " + d))
         else:
             if case["dseed"] % 2:
                 h = xyzpy.Harvester(None, data_name=path, engine=engine)
